@@ -587,6 +587,131 @@ def strictness__twin(x: int, nan: bool, ms: bool, tc: int, sd: int, rse0: int, r
     return not strictness(x, nan, ms, tc, sd, rse0, rse1, fzg)
 
 
+# ---------------------------------------------------------------------------------------------------------
+# per-class criteria (rse_theta/omega/sigma, final_zero_gradient_theta/omega/sigma): a contract model of the pandas
+# Series operations the function uses (index.isin, boolean-mask selection, reindex with NaN for missing labels,
+# == scalar, isnull, any, iteration); results hold entries for the ESTIMATED parameters only (fixed ones have none)
+
+class FSeries:
+    def __init__(self, labels, values):
+        self.labels = list(labels)
+        self.values = list(values)
+        self.index = self
+
+    def isin(self, names):          # Series.index.isin
+        names = list(names)
+        return [lb in names for lb in self.labels]
+
+    def __getitem__(self, mask):
+        return FSeries([lb for lb, m in zip(self.labels, mask) if m], [v for v, m in zip(self.values, mask) if m])
+
+    def reindex(self, names):
+        d = dict(zip(self.labels, self.values))
+        return FSeries(list(names), [d[n] if n in d else NAN for n in names])
+
+    def __iter__(self):
+        return iter(self.values)
+
+    def __len__(self):
+        return len(self.values)
+
+    def __eq__(self, other):
+        return FSeries(self.labels, [(v is not None and v == other) for v in self.values])
+
+    __hash__ = None
+
+    def isnull(self):
+        return FSeries(self.labels, [v is None or v != v for v in self.values])
+
+    def any(self):
+        for v in self.values:
+            if v:
+                return True
+        return False
+
+
+class _Names:
+    def __init__(self, names):
+        self.names = names
+
+
+class CModel:
+    thetas = ['POP_A', 'POP_B']
+    omegas = ['IIV_A']
+    sigmas = ['RUV']
+
+
+EXPRS_C = [
+    ('rse_theta < 2', ('rse', 't', '<')), ('rse_omega < 2', ('rse', 'o', '<')), ('rse_sigma < 2', ('rse', 's', '<')),
+    ('not rse_theta < 2', ('not', ('rse', 't', '<'))), ('rse_theta >= 2', ('rse', 't', '>=')),
+    ('rse_theta < 2 and rse_omega < 2', ('and', ('rse', 't', '<'), ('rse', 'o', '<'))),
+    ('rse_sigma < 2 or rse_omega < 2', ('or', ('rse', 's', '<'), ('rse', 'o', '<'))),
+    ('final_zero_gradient_theta', ('fzg', 't')), ('final_zero_gradient_omega', ('fzg', 'o')),
+    ('final_zero_gradient_sigma', ('fzg', 's')),
+    ('not final_zero_gradient_omega and rse_omega < 2', ('and', ('not', ('fzg', 'o')), ('rse', 'o', '<'))),
+    ('minimization_successful and rse_theta < 2', ('and', 'ms', ('rse', 't', '<'))),
+]
+
+
+def _cval(t, env):
+    if t == 'ms':
+        return env['ms']
+    if t[0] == 'not':
+        return not _cval(t[1], env)
+    if t[0] == 'and':
+        return _cval(t[1], env) and _cval(t[2], env)
+    if t[0] == 'or':
+        return _cval(t[1], env) or _cval(t[2], env)
+    if t[0] == 'rse':
+        xs = env['rse'][t[1]]           # RSEs of the estimated parameters of the class: the criterion holds for ALL
+        return all((x < 2) if t[2] == '<' else (x >= 2) for x in xs)
+    # final_zero_gradient_<class>: at least one parameter of the class has a zero or NaN final gradient
+    return any(g is None or g == 0 for g in env['grd'][t[1]])
+
+
+def strictness_class(x: int, ms: bool, fix_t: bool, fix_o: bool, fix_s: bool, r0: int, r1: int, ro: int, rs: int,
+                     g0: int, g1: int, go: int, gs: int, null_t: bool, null_o: bool, null_s: bool) -> bool:
+    """
+    Per-class criteria over a model with thetas POP_A, POP_B, omega IIV_A, sigma RUV; POP_B / IIV_A / RUV may be
+    fixed (then the results have no RSE and no gradient for them); gradients may be NaN (null_*).
+    pre: 0 <= x < len(EXPRS_C)
+    post: _ == True
+    """
+    R.np = FakeNp
+    R.is_strictness_fulfilled = _real['isf']
+    R.get_thetas = lambda m: _Names(list(m.thetas))
+    R.get_omegas = lambda m: _Names(list(m.omegas))
+    R.get_sigmas = lambda m: _Names(list(m.sigmas))
+    x = [j for j in range(len(EXPRS_C)) if j == x][0]
+    text, tree = EXPRS_C[x]
+    labels, rse, grd = ['POP_A'], [r0], [None if null_t else g0]
+    cls = {'POP_A': 't'}
+    if not fix_t:
+        labels.append('POP_B'); rse.append(r1); grd.append(g1); cls['POP_B'] = 't'      # noqa: E702
+    if not fix_o:
+        labels.append('IIV_A'); rse.append(ro); grd.append(None if null_o else go); cls['IIV_A'] = 'o'   # noqa: E702
+    if not fix_s:
+        labels.append('RUV'); rse.append(rs); grd.append(None if null_s else gs); cls['RUV'] = 's'       # noqa: E702
+    res = SRes(dict(nan=False, ms=ms, tc=0, sd=3, rse0=1, rse1=1, fzg=False))
+    res.relative_standard_errors = FSeries(labels, rse)
+    res.gradients = FSeries(labels, grd)
+    env = dict(ms=ms, rse={c: [v for lb, v in zip(labels, rse) if cls[lb] == c] for c in 'tos'},
+               grd={c: [v for lb, v in zip(labels, grd) if cls[lb] == c] for c in 'tos'})
+    got = R.is_strictness_fulfilled(CModel(), res, text)
+    return bool(got) == bool(_cval(tree, env))
+
+
+def strictness_class__twin(x: int, ms: bool, fix_t: bool, fix_o: bool, fix_s: bool, r0: int, r1: int, ro: int,
+                           rs: int, g0: int, g1: int, go: int, gs: int, null_t: bool, null_o: bool,
+                           null_s: bool) -> bool:
+    """
+    pre: 0 <= x < len(EXPRS_C)
+    pre: x == 5 and not fix_t and not fix_o
+    post: _ == True
+    """
+    return not strictness_class(x, ms, fix_t, fix_o, fix_s, r0, r1, ro, rs, g0, g1, go, gs, null_t, null_o, null_s)
+
+
 def strictness_edges(nan: bool, ms: bool, which: int) -> bool:
     """
     The empty expression is fulfilled unless the OFV is NaN; an unknown criterion name or a disallowed operator
